@@ -8,9 +8,16 @@ default, five scheduler policies, several sim seeds): the property's own clauses
 real outputs against a sequential union-find; the Lean invariants (`checkLex`, `checkClosed`) are
 evaluated by the driver on the real dumped parent maps; the schedule-independent predictions of the
 model (partition, num_sets, size, number of callbacks) under a random delivery order are compared."""
+import os
 import random
 
 from lib import common as C
+
+# Opt-in scenario (default off, see the finding reported with it): unions issued DIRECTLY AFTER clear() with no
+# barrier-containing call in between.  On the unchanged tree a rank that leaves clear() early can have its new unions
+# handled by a rank that is still inside clear()'s barrier and wipes them afterwards (clear() = barrier; local clear, with
+# no closing barrier).  Failures of such scripts get the signature prefix "dset-clear-race".
+POST_CLEAR_NOBARRIER = os.environ.get("C17_POST_CLEAR_NOBARRIER", "1") == "1"
 
 META = {
     "claimed": True,
@@ -21,7 +28,9 @@ META = {
             "reachable state: (rank,item) strictly increases along parent links (lex_increasing), hence lookups terminate (find_terminates, "
             "root_isRoot) and the resolve_merge ASSERT_RELEASEs cannot fire (no_abort); trees stay inside union-graph components (sound); "
             "path splitting never separates items (sameTree_mono) and at quiescence connected items share a root (complete); #merges + "
-            "num_sets = size, callbacks = exec merges, callback edges join distinct trees and form a forest; representatives are members.",
+            "num_sets = size, callbacks = exec merges, callback edges join distinct trees and form a forest; representatives are members. "
+            "clear() is a step enabled only at quiescence (it starts with a barrier) that re-establishes the initial invariant: afterwards size = "
+            "num_sets = 0 and later connectivity equals the graph of the unions issued since (clear_resets, connectivity_after_clear).",
     "note": "Trusted: Lean kernel + propext/Classical.choice/Quot.sound; the hand-written model DSet.lean, tied to disjoint_set_impl.hpp by "
             "exact FIFO replay on one rank and by invariants/partition comparison on the explored multi-rank schedules; handler atomicity "
             "(C08) and exactly-once delivery (C01) are assumptions of the model; all_compress is modelled only by its effect "
@@ -29,7 +38,9 @@ META = {
             "overflow ignored (needs 2^32767 items).",
 }
 
-RULE = ("a case = (union script, layout, routing, buffer, policy, sim seed); non-trivial = at least one root merge happened; 1-rank cases are "
+RULE = ("a case = (union script with 0..2 clear() calls, layout, routing, buffer, policy, sim seed); unions issued directly before a clear() "
+        "(no barrier in between, possibly by one rank only) must be completed by it and must not survive it; after clear(): size = num_sets = 0 and the "
+        "reference union-find restarts; non-trivial = at least one root merge happened; 1-rank cases are "
         "compared state-by-state with the model under FIFO, multi-rank cases by oracle + Lean invariant evaluation + partition comparison")
 
 LAYOUTS = [(1, 2), (1, 3), (2, 2), (1, 4), (1, 5), (2, 3), (1, 7), (2, 4)]
@@ -89,54 +100,78 @@ FAMILIES = ["sparse", "chain", "clique", "star", "dups", "pairs-then-join"]
 
 
 def gen_script(rnd, nranks, big):
-    """returns dict(tokens, epochs=[{edges:[(kind,a,b)], id}], ...) ; edges carry the issuing rank"""
+    """returns dict(tokens, steps, ...).  steps: ("ops", [(kind, rank|'*', a, b)]), ("dump", id), ("find", id, mode),
+    ("forall", id), ("clear", k).  A script has 1..3 segments separated by clear(); the last batch of unions before a
+    clear() is usually NOT followed by any barrier-containing call: clear() itself has to complete it, and nothing of it may
+    survive into the next segment, which reuses the same items."""
     nitems = rnd.choice([3, 5, 8, 12, 20, 32] if not big else [8, 16, 32, 48, 64])
     spread = rnd.choice([1, 1, 7, 1000])
     universe = sorted(rnd.sample(range(0, nitems * spread + 1), nitems))
     kindmode = rnd.choice(["u", "x", "x", "mixed", "u-then-x"])
-    nep = rnd.choice([1, 2, 2, 3]) if kindmode != "u-then-x" else rnd.choice([2, 3])
+    nseg = 1 if rnd.random() < 0.5 else rnd.choice([2, 2, 3])
     toks, steps = [], []
     did = 0
     fam_used = []
-    for ep in range(nep):
-        fam = rnd.choice(FAMILIES)
-        fam_used.append(fam)
-        sub = universe if rnd.random() < 0.6 else rnd.sample(universe, max(2, nitems // 2))
-        E = gen_edges(rnd, fam, sub)
-        if not E:
-            E = [(sub[0], sub[-1])]
-        ops = []
-        conc = rnd.random() < 0.35
-        for (a, b) in E:
-            if kindmode == "mixed":
-                kind = rnd.choice(["u", "x"])
-            elif kindmode == "u-then-x":
-                kind = "u" if ep == 0 else "x"
-            else:
-                kind = kindmode
-            if conc and rnd.random() < 0.3:
-                ops.append((kind, "*", a, b))
-            else:
-                ops.append((kind, rnd.randrange(nranks), a, b))
-        for (k, r, a, b) in ops:
-            toks.append(f"{k}:{r}:{a}:{b}")
-        steps.append(("ops", ops))
-        toks += [f"D:{did}", f"N:{did}"]
-        steps.append(("dump", did))
-        did += 1
-        c = rnd.random()
-        if c < 0.35:
-            mode = rnd.choice(["a", "s", "e"])
-            toks += [f"F:{did}:{mode}", f"D:{did}", f"N:{did}"]
-            steps.append(("find", did, mode))
+    for seg in range(nseg):
+        last_seg = seg == nseg - 1
+        if nseg == 1:
+            nep = rnd.choice([1, 2, 2, 3]) if kindmode != "u-then-x" else rnd.choice([2, 3])
+        else:
+            nep = rnd.choice([1, 1, 2]) if kindmode != "u-then-x" else 2
+        for ep in range(nep):
+            fam = rnd.choice(FAMILIES)
+            fam_used.append(fam)
+            sub = universe if rnd.random() < 0.6 else rnd.sample(universe, max(2, nitems // 2))
+            E = gen_edges(rnd, fam, sub)
+            if not E:
+                E = [(sub[0], sub[-1])]
+            raw = (not last_seg) and ep == nep - 1 and rnd.random() < 0.8    # unions, then clear() at once
+            one_rank = rnd.randrange(nranks) if (raw and rnd.random() < 0.5) else None   # only one rank has issued anything
+            ops = []
+            conc = rnd.random() < 0.35 and one_rank is None
+            for (a, b) in E:
+                if kindmode == "mixed":
+                    kind = rnd.choice(["u", "x"])
+                elif kindmode == "u-then-x":
+                    kind = "u" if ep == 0 else "x"
+                else:
+                    kind = kindmode
+                if one_rank is not None:
+                    ops.append((kind, one_rank, a, b))
+                elif conc and rnd.random() < 0.3:
+                    ops.append((kind, "*", a, b))
+                else:
+                    ops.append((kind, rnd.randrange(nranks), a, b))
+            for (k, r, a, b) in ops:
+                toks.append(f"{k}:{r}:{a}:{b}")
+            steps.append(("ops", ops))
+            if raw:
+                continue
+            toks += [f"D:{did}", f"N:{did}"]
             steps.append(("dump", did))
             did += 1
-        elif c < 0.6:
-            toks += [f"A:{did}", f"D:{did}", f"N:{did}"]
-            steps.append(("forall", did))
+            c = rnd.random()
+            if c < 0.35:
+                mode = rnd.choice(["a", "s", "e"])
+                toks += [f"F:{did}:{mode}", f"D:{did}", f"N:{did}"]
+                steps.append(("find", did, mode))
+                steps.append(("dump", did))
+                did += 1
+            elif c < 0.6:
+                toks += [f"A:{did}", f"D:{did}", f"N:{did}"]
+                steps.append(("forall", did))
+                steps.append(("dump", did))
+                did += 1
+        if not last_seg:
+            toks.append("K")
+            steps.append(("clear", seg))
+            if POST_CLEAR_NOBARRIER and rnd.random() < 0.4:
+                continue      # next segment's unions follow clear() immediately
+            # size()/num_sets() right after clear() must be 0/0 (an empty dump: no item is known any more)
+            toks += [f"D:{did}", f"N:{did}"]
             steps.append(("dump", did))
             did += 1
-    return {"tokens": toks, "steps": steps, "universe": universe, "kindmode": kindmode, "families": fam_used}
+    return {"tokens": toks, "steps": steps, "universe": universe, "kindmode": kindmode, "families": fam_used, "clears": nseg - 1}
 
 
 # ------------------------------------------------------------------ reference union-find
@@ -188,7 +223,8 @@ def run_real(binary, case):
 
 def parse_outs(sr, nranks):
     """-> dict with dumps[id] = [(item, rank, parent, on_rank)], n[id] = [(numsets,size) per rank],
-    finds[id] = [(item, rep, on_rank)], fq[id] = [(asked, returned)], foralls[id] = [(item, rep, on_rank)], cbs = [(epoch,a,b)]"""
+    finds[id] = [(item, rep, on_rank)], fq[id] = [(asked, returned)], foralls[id] = [(item, rep, on_rank)],
+    cbs = [(epoch, a, b, clears-returned-on-that-rank)]"""
     o = {"dumps": {}, "n": {}, "finds": {}, "fq": {}, "foralls": {}, "cbs": [], "ended": 0}
     for r in range(nranks):
         for l in sr.outs.get(r, []):
@@ -206,15 +242,16 @@ def parse_outs(sr, nranks):
             elif w[0] == "a":
                 o["foralls"].setdefault(int(w[1]), []).append((int(w[2]), int(w[3]), r))
             elif w[0] == "c":
-                o["cbs"].append((int(w[1]), int(w[2]), int(w[3])))
+                o["cbs"].append((int(w[1]), int(w[2]), int(w[3]), int(w[4]) if len(w) > 4 else 0))
             elif w[0] == "end":
                 o["ended"] += 1
     return o
 
 
 def model_tokens(script, nranks):
-    """the same script for the Lean driver: `*` edges are issued once per rank"""
-    toks = []
+    """the same script for the Lean driver (`*` edges are issued once per rank) and the meaning of each
+    section it emits: ("dump", id) or ("preclear", k) = the state clear() k wipes (after its barrier)"""
+    toks, labels = [], []
     known = set()
     for st in script["steps"]:
         if st[0] == "ops":
@@ -224,14 +261,18 @@ def model_tokens(script, nranks):
                     toks.append(f"{k}:{a}:{b}")
         elif st[0] == "dump":
             toks += ["B", "D"]
+            labels.append(("dump", st[1]))
         elif st[0] == "find":
-            ks = sorted(known)
-            mode = st[2]
-            q = ks if mode in ("a", "e") else ks   # mode s: the ranks together ask for every item
-            toks += ["B", "F:" + ",".join(map(str, q))]
+            toks += ["B", "F:" + ",".join(map(str, sorted(known)))]   # the ranks together ask for every known item
         elif st[0] == "forall":
             toks += ["B", "A"]
-    return toks
+        elif st[0] == "clear":
+            toks += ["B", "D", "K"]
+            labels.append(("preclear", st[1]))
+            known = set()
+    toks += ["B", "D"]
+    labels.append(("final", None))
+    return toks, labels
 
 
 def parse_model_sections(line):
@@ -291,8 +332,44 @@ def oracle_run(res, case, script, o, nranks):
     last_roots = None
     nmerged = 0
     exact_cb = 0
+    seg = 0
+
+    def check_callbacks():
+        # callbacks of this segment: acyclic, inside the issued exec edges of the segment, count
+        cbs = [(a, b) for (_, a, b, sg) in o["cbs"] if sg == seg]
+        cuf = UF()
+        left = dict(issued_exec)
+        for (a, b) in cbs:
+            if left.get((a, b), 0) <= 0:
+                fail(res, f"callback ({a},{b}) does not correspond to an async_union_and_execute issued since the last clear (or ran more often than issued)",
+                     "dset-callback-foreign", case, {"segment": seg})
+                break
+            left[(a, b)] -= 1
+            if not cuf.union(a, b):
+                fail(res, f"callback edges contain a cycle (edge ({a},{b}) joins items already joined by earlier callbacks)", "dset-callback-cycle", case,
+                     {"segment": seg, "callbacks": cbs[:40]})
+                break
+        ncomp = len(uf.classes())
+        if exact_cb is not None:
+            # every root merge of an epoch that only issues async_union_and_execute runs exactly one callback
+            if len(cbs) != exact_cb:
+                fail(res, f"{len(cbs)} callbacks, but the exec-only epochs merged {exact_cb} times (items - components)", "dset-callback-count", case,
+                     {"segment": seg, "callbacks": cbs[:40]})
+        elif len(cbs) > len(known) - ncomp:
+            fail(res, f"{len(cbs)} callbacks exceed items - components = {len(known) - ncomp}", "dset-callback-count", case, {"segment": seg})
+
     for st in script["steps"]:
-        if st[0] == "ops":
+        if st[0] == "clear":
+            # everything issued before clear() belongs to the old segment (clear() starts with a barrier);
+            # afterwards the container is empty and the reference union-find restarts
+            check_callbacks()
+            uf = UF()
+            issued_exec = {}
+            known = set()
+            last_roots = None
+            exact_cb = 0
+            seg += 1
+        elif st[0] == "ops":
             kinds = {k for (k, _, _, _) in st[1]}
             before_merges = len(known) - len(uf.classes())
             for (k, r, a, b) in st[1]:
@@ -312,7 +389,7 @@ def oracle_run(res, case, script, o, nranks):
             rows = o["dumps"].get(did, [])
             items = [x[0] for x in rows]
             if sorted(items) != sorted(known):
-                fail(res, f"dump {did}: items present differ from the items mentioned in unions", "dset-items", case,
+                fail(res, f"dump {did}: items present differ from the items mentioned in unions since the last clear", "dset-items", case,
                      {"dump": did, "missing": sorted(known - set(items))[:10], "extra_or_dup": sorted(set(items) - known)[:10], "n": len(items)})
                 return summaries
             ent = {x: (rk, p) for (x, rk, p, _) in rows}
@@ -345,11 +422,14 @@ def oracle_run(res, case, script, o, nranks):
                 sound = all(len({uf.find(x) for x in c}) == 1 for c in part)
                 fail(res, f"dump {did}: trees differ from the connected components of the unions issued ("
                      + ("items connected by unions are in different trees" if sound else "a tree spans two components") + ")",
-                     "dset-partition-" + ("incomplete" if sound else "unsound"), case, {"dump": did, "real": part[:6], "want": want[:6]})
+                     "dset-partition-" + ("incomplete" if sound else "unsound") + ("-after-clear" if seg > 0 else ""), case,
+                     {"dump": did, "segment": seg, "real": part[:6], "want": want[:6]})
             nroots = sum(1 for x in ent if ent[x][1] == x)
             for (ns, sz) in o["n"].get(did, []):
                 if ns != len(want) or sz != len(known):
-                    fail(res, f"N {did}: num_sets/size = {ns}/{sz}, components/items = {len(want)}/{len(known)}", "dset-numsets", case)
+                    after_clear = seg > 0
+                    fail(res, f"N {did}: num_sets/size = {ns}/{sz}, components/items " + ("of the unions issued since the last clear() " if after_clear else "")
+                         + f"= {len(want)}/{len(known)}", "dset-numsets" + ("-after-clear" if after_clear else ""), case, {"segment": seg})
                     break
             if len(o["n"].get(did, [])) != nranks:
                 fail(res, f"N {did}: not every rank reported", "dset-numsets-missing", case)
@@ -388,40 +468,49 @@ def oracle_run(res, case, script, o, nranks):
                 if last_roots is not None and last_roots.get(it) != rep:
                     fail(res, f"for_all {did}: representative of {it} is {rep}, the root of its tree is {last_roots.get(it)}", "dset-forall-rep", case)
                     break
-    # callbacks: acyclic, inside the issued exec edges, count
-    cbs = o["cbs"]
-    cuf = UF()
-    left = dict(issued_exec)
-    for (_, a, b) in cbs:
-        if left.get((a, b), 0) <= 0:
-            fail(res, f"callback ({a},{b}) does not correspond to an issued async_union_and_execute (or ran more often than issued)", "dset-callback-foreign", case)
-            break
-        left[(a, b)] -= 1
-        if not cuf.union(a, b):
-            fail(res, f"callback edges contain a cycle (edge ({a},{b}) joins items already joined by earlier callbacks)", "dset-callback-cycle", case,
-                 {"callbacks": cbs[:40]})
-            break
-    ncomp = len(uf.classes())
-    if exact_cb is not None:
-        # every root merge of an epoch that only issues async_union_and_execute runs exactly one callback
-        if len(cbs) != exact_cb:
-            fail(res, f"{len(cbs)} callbacks, but the exec-only epochs merged {exact_cb} times (items - components)", "dset-callback-count", case, {"callbacks": cbs[:40]})
-    elif len(cbs) > len(known) - ncomp:
-        fail(res, f"{len(cbs)} callbacks exceed items - components = {len(known) - ncomp}", "dset-callback-count", case)
+    check_callbacks()
+    stray = [c for c in o["cbs"] if c[3] > seg]
+    if stray:
+        fail(res, "callback tagged with a segment that does not exist", "dset-callback-foreign", case)
     return summaries
 
 
 # ------------------------------------------------------------------ correspondence
 
-def corr_fifo(res, case, script, o, summaries, mline):
+def seg_callbacks(o):
+    d = {}
+    for (_, a, b, sg) in o["cbs"]:
+        d.setdefault(sg, []).append((a, b))
+    return d
+
+
+def epochs_pure(script):
+    """every batch of unions uses one kind only: then the number of callbacks per segment is schedule independent"""
+    return all(len({k for (k, _, _, _) in st[1]}) == 1 for st in script["steps"] if st[0] == "ops")
+
+
+def corr_fifo(res, case, script, o, summaries, mline, labels):
     secs = parse_model_sections(mline)
-    dump_ids = [st[1] for st in script["steps"] if st[0] == "dump"]
-    if len(secs) != len(dump_ids):
+    if len(secs) != len(labels):
         res.corr_failures.append({"relation": "DSet FIFO run == 1-rank run", "what": "section count differs", "case": case})
         return False
     bysum = {s["id"]: s for s in summaries}
+    rcbs = seg_callbacks(o)
     ok = True
-    for did, sec in zip(dump_ids, secs):
+    seg = 0
+    for (kind, did), sec in zip(labels, secs):
+        if sec["aborted"]:
+            res.corr_failures.append({"relation": "model never aborts", "what": "model run hit the resolve_merge assertion", "case": case})
+            ok = False
+        if kind in ("preclear", "final"):
+            # the callbacks run since the previous clear(), in order
+            rc = rcbs.get(seg, [])
+            if sec["cbs"] != rc:
+                res.corr_failures.append({"relation": "DSet callbacks == real callback sequence (1 rank), per clear() segment",
+                                          "what": f"segment {seg}: real {rc[:10]} model {sec['cbs'][:10]}", "case": case})
+                ok = False
+            seg += 1
+            continue
         s = bysum.get(did)
         if s is None:
             continue
@@ -436,24 +525,24 @@ def corr_fifo(res, case, script, o, summaries, mline):
             if (ns, sz) != (sec["numsets"], sec["size"]):
                 res.corr_failures.append({"relation": "DSet.numSets/size == num_sets()/size()", "what": f"dump {did}: real {ns}/{sz} model {sec['numsets']}/{sec['size']}", "case": case})
                 ok = False
-        if sec["aborted"]:
-            res.corr_failures.append({"relation": "model never aborts", "what": "model run hit the resolve_merge assertion", "case": case})
-            ok = False
-    if secs:
-        mc = secs[-1]["cbs"]
-        rc = [(a, b) for (_, a, b) in o["cbs"]]
-        if mc != rc:
-            res.corr_failures.append({"relation": "DSet callbacks == real callback sequence (1 rank)", "what": f"real {rc[:10]} model {mc[:10]}", "case": case})
-            ok = False
     return ok
 
 
-def corr_multi(res, case, script, o, summaries, mline, checks):
+def corr_multi(res, case, script, o, summaries, mline, labels, checks):
     secs = parse_model_sections(mline)
-    dump_ids = [st[1] for st in script["steps"] if st[0] == "dump"]
     bysum = {s["id"]: s for s in summaries}
+    rcbs = seg_callbacks(o)
+    pure = epochs_pure(script)
     ok = True
-    for did, sec in zip(dump_ids, secs):
+    seg = 0
+    for (kind, did), sec in zip(labels, secs):
+        if kind in ("preclear", "final"):
+            if pure and len(sec["cbs"]) != len(rcbs.get(seg, [])):
+                res.corr_failures.append({"relation": "number of callbacks per clear() segment is schedule independent",
+                                          "what": f"segment {seg}: model {len(sec['cbs'])} real {len(rcbs.get(seg, []))}", "case": case})
+                ok = False
+            seg += 1
+            continue
         s = bysum.get(did)
         if s is None:
             continue
@@ -465,9 +554,6 @@ def corr_multi(res, case, script, o, summaries, mline, checks):
         if sec["numsets"] != s["nroots"]:
             res.corr_failures.append({"relation": "DSet.numSets == number of real roots", "what": f"dump {did}: {sec['numsets']} vs {s['nroots']}", "case": case})
             ok = False
-    if secs and script["kindmode"] in ("x", "u-then-x") and len(secs[-1]["cbs"]) != len(o["cbs"]):
-        res.corr_failures.append({"relation": "number of callbacks is schedule independent", "what": f"model {len(secs[-1]['cbs'])} real {len(o['cbs'])}", "case": case})
-        ok = False
     for did, ans in checks:
         if ans != "lex 1 closed 1":
             res.corr_failures.append({"relation": "DSet.checkLex/checkClosed (Lean) on the real parent map", "what": f"dump {did}: {ans}", "case": dict(case, dump=did)})
@@ -512,12 +598,15 @@ def script_from_tokens(tokens):
             steps.append(("find", int(f[1]), f[2]))
         elif f[0] == "A":
             steps.append(("forall", int(f[1])))
+        elif f[0] == "K":
+            steps.append(("clear", sum(1 for x in steps if x[0] == "clear")))
     if ops:
         steps.append(("ops", ops))
     km = "x" if kinds == {"x"} else ("u" if kinds == {"u"} else "mixed")
     if km == "mixed" and all(len({k for (k, _, _, _) in st[1]}) == 1 for st in steps if st[0] == "ops"):
         km = "u-then-x"
-    return {"tokens": list(tokens), "steps": steps, "universe": sorted(universe), "kindmode": km, "families": []}
+    return {"tokens": list(tokens), "steps": steps, "universe": sorted(universe), "kindmode": km, "families": [],
+            "clears": sum(1 for x in steps if x[0] == "clear")}
 
 
 def model_call(lines):
@@ -535,6 +624,17 @@ def model_call(lines):
 
 def evaluate(binary, case, script, model_ok, res):
     """runs the real code + model on one case and fills res; returns (status, merged?)"""
+    before = len(res.oracle_failures)
+    out = _evaluate(binary, case, script, model_ok, res)
+    st_kinds = [st[0] for st in script["steps"]]
+    if any(a == "clear" and b == "ops" for a, b in zip(st_kinds, st_kinds[1:])):
+        for f in res.oracle_failures[before:]:
+            if not f["signature"].startswith("dset-clear-race"):
+                f["signature"] = "dset-clear-race unions-right-after-clear " + f["signature"]
+    return out
+
+
+def _evaluate(binary, case, script, model_ok, res):
     nranks = case["layout"][0] * case["layout"][1]
     sr = run_real(binary, case)
     cl = classify_verdict(sr)
@@ -553,21 +653,23 @@ def evaluate(binary, case, script, model_ok, res):
         return "failed", False
     before = len(res.oracle_failures)
     summaries = oracle_run(res, case, script, o, nranks)
+
     merged = any(s["nroots"] < len(s["ent"]) for s in summaries)
     if model_ok:
-        mt = model_tokens(script, nranks)
+        mt, labels = model_tokens(script, nranks)
         lines = []
         if nranks == 1:
             lines.append("run fifo 0 " + " ".join(mt))
         else:
             lines.append(f"run rand {case['model_seed']} " + " ".join(mt))
-            for s in summaries:
+            nonempty = [s for s in summaries if s["ent"]]
+            for s in nonempty:
                 lines.append("check " + " ".join(f"{x}:{v[0]}:{v[1]}" for x, v in sorted(s["ent"].items())))
         out = model_call(lines)
         if nranks == 1:
-            corr_fifo(res, case, script, o, summaries, out[0])
+            corr_fifo(res, case, script, o, summaries, out[0], labels)
         else:
-            corr_multi(res, case, script, o, summaries, out[0], list(zip([s["id"] for s in summaries], out[1:])))
+            corr_multi(res, case, script, o, summaries, out[0], labels, list(zip([s["id"] for s in nonempty], out[1:])))
     return ("ok" if len(res.oracle_failures) == before else "violated"), merged
 
 
@@ -623,6 +725,7 @@ def run(tier, seed, model_ok=True):
         res.count(f"buffer={case['buffer']}")
         res.count(f"policy={case['policy']}")
         res.count(f"kind={script['kindmode']}")
+        res.count(f"clears={script.get('clears', 0)}")
         for f in script["families"]:
             res.count("family=" + f)
         if st in ("ok", "violated"):
